@@ -48,4 +48,3 @@ func H_c13_filter() {
 	symAssert(flt.Want(fr) == want, "filter-delivers-exactly-the-matching-frames")
 	symReach("end")
 }
-
